@@ -48,7 +48,8 @@ Inductive part :=
 | PChoice (a b : part)
 | PScope (p : part)                     (* one alternative of a parenthesised group: pushRule(false)..popRule *)
 | PAlias (nm : N) (p : part)            (* inner[nm] *)
-| PCmd (c : N).                         (* { code } : index into the command table *)
+| PCmd (c : N)                          (* { code } : index into the command table *)
+| PMark (m : N).                        (* .name : state marker -- no position, no name, no stack slot *)
 
 Record cmdargs := mkCA { ca_names : nmap; ca_maxpos : nat }.
 
@@ -95,7 +96,7 @@ Fixpoint collect (p : part) : list nat :=
   | PList _ pos => if 0 <? pos then [pos] else []
   | POpt q | PScope q | PAlias _ q => collect q
   | PSeq a b | PChoice a b => collect a ++ collect b
-  | PEmpty | PCmd _ => []
+  | PEmpty | PCmd _ | PMark _ => []
   end.
 
 Fixpoint merge_names (parent child : nmap) : nmap :=
@@ -132,12 +133,13 @@ Fixpoint convert (p : part) (s : cst) : part * cst :=
       (PAlias nm q', match ps with [] => s | _ => push_name s nm ps end)
   | PCmd c =>
       (PCmd c, mkC (c_top s) (c_stack s) (c_pos s) (c_cmds s ++ [(c, mkCA (cur_names s) (c_pos s))]))
+  | PMark m => (PMark m, s)   (* convertPart, *ast.StateMarker: no allocatePos, no pushName *)
   end.
 
 Definition convert_rule (p : part) : part * cst := convert p (mkC [] [] 1 []).
 
 (* ---------- expansion ---------- *)
-Inductive item := IRef (pos : nat) | ICmd (c : N).
+Inductive item := IRef (pos : nat) | ICmd (c : N) | IMark (m : N).
 
 Definition multi_concat (xs ys : list (list item)) : list (list item) :=
   flat_map (fun x => map (fun y => x ++ y) ys) xs.
@@ -152,6 +154,7 @@ Fixpoint expand (p : part) : list (list item) :=
   | PChoice a b => expand a ++ expand b
   | PScope q | PAlias _ q => expand q
   | PCmd c => [[ICmd c]]
+  | PMark m => [[IMark m]]
   end.
 
 (* the expansion a derivation uses: one boolean per optional (present?) / choice (right?) met on the way *)
@@ -173,10 +176,13 @@ Fixpoint pick (p : part) (sel : list bool) : list item * list bool :=
                    end
   | PScope q | PAlias _ q => pick q sel
   | PCmd c => ([ICmd c], sel)
+  | PMark m => ([IMark m], sel)
   end.
 
 (* ---------- compiler.go traverse: pending command, mid-rule extraction ---------- *)
-Inductive litem := LRef (pos : nat) | LMid (cs : list N) | LFinal (cs : list N).
+(* LMark: lalr.Marker(i) appended to rule.RHS -- it is part of the rule handed to the LALR generator but not
+   of the run-time rule: RuleLen, SymRefCount and numRefs all skip it *)
+Inductive litem := LRef (pos : nat) | LMid (cs : list N) | LFinal (cs : list N) | LMark (m : N).
 
 Fixpoint traverse (items : list item) (pending : list N) : list litem :=
   match items with
@@ -184,6 +190,18 @@ Fixpoint traverse (items : list item) (pending : list N) : list litem :=
   | ICmd c :: r => traverse r (pending ++ [c])
   | IRef pos :: r =>
       match pending with [] => [] | _ => [LMid pending] end ++ LRef pos :: traverse r []
+  | IMark m :: r => LMark m :: traverse r pending   (* the pending command stays pending *)
+  end.
+
+(* "mixing mid-rule actions with state markers is not supported": when a pending command is extracted into a
+   nonterminal, a state marker already appended to rule.RHS is reported as an error (the grammar is rejected).
+   marked: a marker has been appended to the rule so far *)
+Fixpoint mixes (ls : list litem) (marked : bool) : bool :=
+  match ls with
+  | [] => false
+  | LMark _ :: r => mixes r true
+  | LMid _ :: r => marked || mixes r marked
+  | LRef _ :: r | LFinal _ :: r => mixes r marked
   end.
 
 (* ---------- run-time values ---------- *)
@@ -326,6 +344,7 @@ Fixpoint run (tab : cmdtab) (cas : list (N * cmdargs)) (ls : list litem) (base s
       run_cmds tab cas cs rm base st lhs ++ run tab cas r base (st ++ [lhs]) rm children cur
   | LFinal cs :: r =>
       run_cmds tab cas cs rm base st (mkE VNil (first_off st cur) cur) ++ run tab cas r base st rm children cur
+  | LMark _ :: r => run tab cas r base st rm children cur   (* no entry, numRefs unchanged, no actualPos *)
   end.
 
 (* lead: the rule is the recursive rule of a list, "list : list body" -- one leading symbol without position *)
@@ -334,3 +353,19 @@ Definition run_node (tab : cmdtab) (body : part) (lead : bool) (sel : list bool)
   let '(body', cs) := convert_rule body in
   let items := (if lead then [IRef 0] else []) ++ fst (pick body' sel) in
   run tab (c_cmds cs) (traverse items []) base [] [] children start.
+
+(* the rule is rejected by the compiler: some expansion puts a state marker in front of a mid-rule action *)
+Definition rule_mixes (body : part) : bool :=
+  existsb (fun x => mixes (traverse x []) false) (expand (fst (convert_rule body))).
+
+(* the rule as written without its state markers *)
+Fixpoint erase_marks (p : part) : part :=
+  match p with
+  | PMark _ => PEmpty
+  | POpt q => POpt (erase_marks q)
+  | PSeq a b => PSeq (erase_marks a) (erase_marks b)
+  | PChoice a b => PChoice (erase_marks a) (erase_marks b)
+  | PScope q => PScope (erase_marks q)
+  | PAlias nm q => PAlias nm (erase_marks q)
+  | PEmpty | PSym _ _ _ | PList _ _ | PCmd _ => p
+  end.
